@@ -299,6 +299,8 @@ pub struct ReadSpec<'a> {
     pub streaming_v1: bool,
     /// SEIPDv1 default mode with an explicit `max_message_size`
     pub v1_limit: Option<usize>,
+    /// decryption options: bit 0 = enable_gnupg_aead, bit 1 = enable_legacy (SED)
+    pub opts: u8,
 }
 
 /// Run the real reader over `input` and drain it with the consumer script.
@@ -327,26 +329,45 @@ pub fn read_message<R: BufRead + std::fmt::Debug + Send>(input: R, spec: &ReadSp
     let msg = if msg.is_encrypted() {
         let r = match &spec.opener {
             Opener::None => Ok(msg),
-            Opener::SessionKey(sk) => {
-                if spec.streaming_v1 || spec.v1_limit.is_some() {
-                    let mode = match spec.v1_limit {
-                        Some(l) if !spec.streaming_v1 => pgp::types::Seipdv1ReadMode::CheckFirst { max_message_size: l },
-                        _ => pgp::types::Seipdv1ReadMode::Streaming,
-                    };
-                    let ring = pgp::composed::TheRing {
-                        session_keys: vec![sk.clone()],
-                        decrypt_options: pgp::composed::DecryptionOptions::new().set_seipdv1_read_mode(mode),
-                        ..Default::default()
-                    };
-                    msg.decrypt_the_ring(ring, true).map(|(m, _)| m)
-                } else {
-                    msg.decrypt_with_session_key(sk.clone())
+            opener => {
+                let mut options = pgp::composed::DecryptionOptions::new();
+                if spec.opts & 1 != 0 {
+                    options = options.enable_gnupg_aead();
                 }
-            }
-            Opener::Password(pw) => msg.decrypt_with_password(&Password::from(pw.as_str())),
-            Opener::Key(name) => {
-                let k = keys::get(name);
-                msg.decrypt(&Password::from(k.password), &k.secret)
+                if spec.opts & 2 != 0 {
+                    options = options.enable_legacy();
+                }
+                if spec.streaming_v1 {
+                    options = options.set_seipdv1_read_mode(pgp::types::Seipdv1ReadMode::Streaming);
+                } else if let Some(l) = spec.v1_limit {
+                    options = options.set_seipdv1_read_mode(pgp::types::Seipdv1ReadMode::CheckFirst { max_message_size: l });
+                }
+                let plain_ring = spec.opts == 0 && !spec.streaming_v1 && spec.v1_limit.is_none();
+                match opener {
+                    // the convenience entry points when no option is needed (they are what users call)
+                    Opener::SessionKey(sk) if plain_ring => msg.decrypt_with_session_key(sk.clone()),
+                    Opener::Password(pw) if plain_ring => msg.decrypt_with_password(&Password::from(pw.as_str())),
+                    Opener::Key(name) if plain_ring => {
+                        let k = keys::get(name);
+                        msg.decrypt(&Password::from(k.password), &k.secret)
+                    }
+                    Opener::SessionKey(sk) => {
+                        let ring = pgp::composed::TheRing { session_keys: vec![sk.clone()], decrypt_options: options, ..Default::default() };
+                        msg.decrypt_the_ring(ring, true).map(|(m, _)| m)
+                    }
+                    Opener::Password(pw) => {
+                        let pw = Password::from(pw.as_str());
+                        let ring = pgp::composed::TheRing { message_password: vec![&pw], decrypt_options: options, ..Default::default() };
+                        msg.decrypt_the_ring(ring, true).map(|(m, _)| m)
+                    }
+                    Opener::Key(name) => {
+                        let k = keys::get(name);
+                        let pw = Password::from(k.password);
+                        let ring = pgp::composed::TheRing { secret_keys: vec![&k.secret], key_passwords: vec![&pw], decrypt_options: options, ..Default::default() };
+                        msg.decrypt_the_ring(ring, true).map(|(m, _)| m)
+                    }
+                    Opener::None => Ok(msg),
+                }
             }
         };
         match r {
